@@ -54,7 +54,7 @@ def gen_ir(rng):
             elif inner.startswith("Literal["):
                 p["default"] = ast.literal_eval(inner[len("Literal["):-1].split(",")[0].strip())
             elif inner in T.SCALARS:
-                p["default"] = {"int": rng.choice([0, 5, -3]), "float": rng.choice([0.5, -1.5]), "str": rng.choice(["x", "a b"]),
+                p["default"] = {"int": rng.choice([0, 5, -3]), "float": rng.choice([0.5, -1.5]), "str": rng.choice(["x", "a b", "hello", "{}", "[a-z]", "(none)", ",", "->", "%s", "1", "None", "True", "a.b", "it's"]),
                                 "bool": rng.choice([True, False])}[inner]
             elif rng.random() < 0.5 and t.startswith("Optional["):
                 p["default"] = T.NoneStr
